@@ -444,6 +444,18 @@ pub fn search(suite: &str, a: &[&str]) -> Option<String> {
             }
             format!("OK {}", pts.len())
         }
+        // p_fixed_point <result of a case run on the `fixed_point` build of the harness> :: <case>
+        // (props/C18_sector.py builds that second binary and runs the cases; this suite only carries the
+        // verdict into the check's search channel)
+        "p_fixed_point" => {
+            if a.first() == Some(&"OK") {
+                format!("OK fixed_point {}", a[1..].join(" "))
+            } else if a.iter().any(|t| t.starts_with("class=")) {
+                format!("{} [fixed_point build]", a.join(" "))
+            } else {
+                format!("FAIL class=fixed_point {}", a.join(" "))
+            }
+        }
         _ => return None,
     })
 }
